@@ -786,9 +786,9 @@ def tags_for(fc, extend):
 
 
 def coq_representable(fc):
-    """inputs whose abstract form (token lists) is what the model works on: a unit with white
-    space is several tokens in the file but one string in the field"""
-    if fc["unit"] and any(ch.isspace() for ch in fc["unit"]):
+    """inputs whose abstract form the model works on; a unit with (ASCII) white space is modelled
+    too: `words` splits the written line into the tokens the reader sees"""
+    if fc["unit"] and any(ch.isspace() and ch != " " for ch in fc["unit"]):
         return False
     if fc["vdims"] and any(any(ch.isspace() for ch in c) for c in fc["vdims"]):
         return False
